@@ -81,7 +81,7 @@ func exprCase(ctx *report.Ctx, c *explore.Chooser, partName string, e *yc.Expr, 
 			Witness: text,
 			Detail:  fmt.Sprintf("expression %s (meaning %s) must give %s; %s", text, yc.ExprString(e), want, mm.Detail),
 			Choices: c.Choices(), Part: partName,
-			Extra:   map[string]any{"scripts": srcs, "args": mm.Args, "trace": mm.Trace, "go_test": goTestFor(srcs, "abc", mm.Args, mm.Detail)},
+			Extra: map[string]any{"scripts": srcs, "args": mm.Args, "trace": mm.Trace, "go_test": goTestFor(srcs, "abc", mm.Args, mm.Detail)},
 		})
 	} else if ctx.WantSample() && e.K == yc.EBin && e.L.K == yc.EBin {
 		ctx.Sample(map[string]any{"part": partName, "expression": yc.RenderExpr(e, lay), "meaning": yc.ExprString(e)})
